@@ -33,7 +33,7 @@ PAIRS = [tuple(c) for c in itertools.combinations(NAMES, 2)]
 MAX_ACTIVE = 2
 
 
-QUICK_PAIRS = [("foo", "foo.a"), ("foo.a", "foo.sub"), ("foo", "fo"), ("fo", "bar.baz")]
+QUICK_PAIRS = [("foo.a", "foo.sub"), ("fo", "bar.baz")]
 
 ALPHABET = (
     "operations: install(names, checker) with checkers {spy A, spy B, None} through the routes api(str) / api(old tuple form) / with-block and, while no hook "
@@ -64,7 +64,7 @@ def families(tier):
                 pytest_upto=2,
                 sym=True,
                 no_install_from=4,
-                text="histories of length <= 4; name sets: the 5 single names and the pairs {foo,foo.a} {foo.a,foo.sub} {foo,fo} {fo,bar.baz} for the first "
+                text="histories of length <= 4; name sets: the 5 single names and the pairs {foo.a,foo.sub} {fo,bar.baz} for the first "
                 "active hook, the 5 single names for the second; spelling variants and the pytest route at positions <= 2; first spy of a history is A; "
                 "no install at position 4",
             )
@@ -262,7 +262,7 @@ def _expand(job):
                         stats["dontcare"] += 1
                     if not cov and any(covers(r[0], x) for r in records if not r[3]):
                         stats["after_uninstall_loads"] += 1
-                if len(samples) < 3 and out["new"] and alive and not probs and len(hist) >= 2:
+                if len(samples) < 3 and len({t2.get(x) for x in out["new"]}) >= 2 and not probs and len(hist) >= 2:
                     samples.append(dict(history=hist + [op], hooks=_hooks_desc(records), newly_loaded={x: t2.get(x) for x in out["new"]}, state=k2))
             elif out["outcome"] == "refused":
                 stats["refused"] += 1
@@ -442,7 +442,7 @@ def _run(ctx, tmp, pool, sw):
         seen_all |= r["seen"]
         stats_all.append(r["stats"])
         viols += r["viols"]
-        samples += r["samples"][:3]
+        samples += sorted(r["samples"], key=lambda x: (len(x["history"]), repr(x)))[:3]
         per_level += r["per_level"]
         fam_cov.append(dict(family=P["name"], bounds=P["text"], states=len(r["seen"]), transitions=r["stats"].get("transitions", 0)))
         if r["cells"] is not None:
